@@ -205,6 +205,13 @@ def gen_construct(rng, defs, t):
         # T(b"x") with a single bytes-like argument means "parse these bytes" (documented call form), not construction
         kw = {sd["fields"][0]["name"]: args[0]}
         args = []
+    if rng.random() < 0.12 and sd["fields"] and sd["fields"][0]["name"] not in (None, "_"):
+        # argument errors: a field given positionally AND by keyword, or more positionals than fields - must raise TypeError
+        # like any Python callable, never silently prefer or drop a value
+        one = {"k": "int", "v": 1}
+        if rng.random() < 0.5:
+            return {"op": "construct", "t": t, "args": [one], "kw": {sd["fields"][0]["name"]: {"k": "int", "v": 2}}, "bad": "dup"}
+        return {"op": "construct", "t": t, "args": [one] * (len(sd["fields"]) + 1 + rng.randrange(2)), "kw": {}, "bad": "extra"}
     return {"op": "construct", "t": t, "args": args, "kw": kw}
 
 
@@ -623,6 +630,14 @@ def exec_op(cl: Client, op, stats, mode, peers=None):
         if _has_union(type(a)) or _has_union(type(b)):
             stats.count("probe.eq_skipped_union")
             return ["skip"]
+        # objects of other kinds are never equal to a structure instance, in either operand order, and != is the negation
+        vals = [getattr(a, f_._name, None) for f_ in type(a).__fields__]
+        for other in (None, 0, tuple(vals), list(vals), {}, "x", b"", type(a)):
+            g2 = _outcome(lambda: ["val", a == other, other == a, a != other, other != a])
+            if g2 != ["val", False, False, True, True]:
+                raise Violation("c17_eq", "equal_to_object_of_another_kind",
+                                f"{type(a).__name__} instance compared with {type(other).__name__} {other!r:.60}: (a == o, o == a, a != o, o != a) = {g2}")
+        stats.count("probe.eq_with_other_kinds")
         got = _outcome(lambda: ["val", bool(a == b), bool(b == a), bool(a != b)])
         stats.count("probe.eq_expected_true" if expected else "probe.eq_expected_false")
         if got != ["val", expected, expected, not expected]:
@@ -750,6 +765,14 @@ def exec_op(cl: Client, op, stats, mode, peers=None):
             cl.handles.append(v)
             return ["val", observe(v, sizes=False), v]
         out = _outcome(f)
+        if op.get("bad"):
+            stats.count("probe.construct_with_argument_error")
+            if out[0] == "val":
+                cl.handles.pop()
+                raise Violation("c17_construct", "argument_error_accepted",
+                                f"{op['t']}(*{op['args']}, **{op['kw']}) ({op['bad']}: a field given twice / too many positional values) "
+                                f"returned {out[1]} instead of raising TypeError")
+            return out[:2]
         if out[0] == "val":
             v = out.pop()
             t = type(v)
@@ -757,7 +780,9 @@ def exec_op(cl: Client, op, stats, mode, peers=None):
                 return out
             # reference: default instance + assignments
             d = t()
-            names = [f_._name for f_ in t.__fields__]
+            # positional parameters are the DISTINCT field names in declaration order (a repeated discard field '_' is one
+            # parameter)
+            names = list(dict.fromkeys(f_._name for f_ in t.__fields__))
             for n, s in zip(names, op["args"]):
                 if s["k"] != "none":
                     setattr(d, n, gen.make_value(cs, s))
